@@ -108,8 +108,14 @@ async def history(acc, clock, rnd, cid):
             try:
                 f = fixwire.parse(fb)
             except fixwire.FrameError as e:
-                V("tapped-frame-unparseable", str(e))
-                return False
+                if any(b > 127 for b in fb):
+                    # BodyLength / CheckSum of a frame with non-ASCII text are C02's listed finding (counted in characters): here only
+                    # the numbering and the journal copy of that frame are judged, from a lenient split
+                    f = [tuple(x.decode("latin-1").split("=", 1)) for x in fb.split(b"\x01") if b"=" in x]
+                    acc.add("frames_with_non_ascii_text_judged_from_a_lenient_split")
+                else:
+                    V("tapped-frame-unparseable", str(e))
+                    return False
             if fixwire.get(f, 43) == "Y" or fixwire.get(f, 35) == "4":
                 continue
             acc.oracle("numbering")
@@ -154,7 +160,7 @@ async def history(acc, clock, rnd, cid):
         nsteps = rnd.randrange(10, 41)
         for step in range(nsteps):
             st = ep.connection_state
-            acts = ["send_app", "send_app", "send_app_stale34", "send_app_dupflag_n", "send_hb", "send_tr", "send_test_req", "send_rr", "send_logon", "send_logout",
+            acts = ["send_app", "send_app", "send_app_latin1", "send_app_stale34", "send_app_dupflag_n", "send_hb", "send_tr", "send_test_req", "send_rr", "send_logon", "send_logout",
                     "send_seqreset", "send_seqreset_renumber", "send_unrepresentable", "send_unencodable_text", "send_journal_refuses", "send_journal_commit_fails"]
             if not connected:
                 acts += ["attach"] * 6 + (["attach_lost_in_callback"] if role == "initiator" else [])
@@ -276,6 +282,8 @@ async def history(acc, clock, rnd, cid):
                 m = {"send_app": lambda: FIXMessage("D", {11: f"c{step}", 55: "X"}),
                      # a new message that still carries a MsgSeqNum tag (e.g. a decoded message relayed to this session): a new number is allocated
                      # PossDupFlag present but 'N': an original message, numbered and journaled like any other
+                     # text outside ASCII: whatever bytes go to the socket are the bytes the journal keeps under that number
+                     "send_app_latin1": lambda: FIXMessage("D", {11: f"l{step}", 55: "X", 58: rnd.choice(["Zürich", "café crème", "naïve Ærø", "ÿ"])}),
                      "send_app_dupflag_n": lambda: FIXMessage("D", {11: f"n{step}", 55: "X", 43: "N"}),
                      "send_app_stale34": lambda: FIXMessage("D", {11: f"s{step}", 55: "X", 34: rnd.choice([1, 999, max(1, exp_next - 1)])}), "send_hb": lambda: FIXMessage("0"),
                      "send_tr": lambda: FIXMessage("1", {112: "manual"}), "send_rr": lambda: FIXMessage("2", {7: 1, 16: 0}),
